@@ -33,6 +33,13 @@ BOUNDS = {
 OUTSIDE = ["N > 5", "more than 3 extra dimensions", "floating-point rounding/overflow", "NaN/inf data",
            "symbolic grid-level default fill value (Axis insists on int|float)"]
 ASSUMPTIONS = ["input data finite"]
+SWEEPS = {"int64": 3}
+
+
+def sweep_applies(cfg, flavor):
+    # a non-integer grid-level fill value cannot be represented in integer data (numpy casts it): not swept
+    return cfg.get("gmode") != "fill25"
+
 
 # grid modes: (name, ctor kwargs, rule in force without per-call argument, fill in force)
 GMODES = {
